@@ -24,6 +24,7 @@ struct Editor {			// read-only probes into the loaded editor (vi.h interface)
 	int (*ren_pos)(char *, int) = nullptr;
 	int (*ren_cursor)(char *, int) = nullptr;
 	int (*uc_slen)(char *) = nullptr;
+	int (*ex_kwd)(char **, int *) = nullptr;
 	long *depth_cuts = nullptr;	// NEATVI_VERIF hook in regex.c (may be absent)
 };
 
